@@ -182,7 +182,7 @@ func run[
 		return fail("policy: %v", err)
 	}
 	var dealt *keys.Dealt[PK, S]
-	if p := vh.Safely(func() { dealt, err = keys.Deal[PK, S](keyGroup, pol, vh.NewRng(cfg.Seed, cfg.Prop, "deal", 0)) }); p != "" {
+	if p := vh.Safely(func() { dealt, err = keys.Material[PK, S](cfg.Common, keyGroup, pol) }); p != "" {
 		return fail("dealer panicked: %s", p)
 	}
 	if err != nil {
